@@ -31,6 +31,60 @@ pub struct Shard {
     pub exhaustive: Option<bool>,
 }
 
+/// Progress counter and last partial result, for the stall watchdog: a call into the database that
+/// never returns (seen with seeded changes that corrupt a tree into a cycle) must not take the
+/// violations the worker has already recorded down with it.
+pub static PROGRESS: std::sync::atomic::AtomicU64 = std::sync::atomic::AtomicU64::new(0);
+static PARTIAL: std::sync::Mutex<Option<Shard>> = std::sync::Mutex::new(None);
+
+#[inline]
+pub fn progress() {
+    PROGRESS.fetch_add(1, std::sync::atomic::Ordering::Relaxed);
+}
+
+/// If no progress is made for `limit_s` seconds, write what has been recorded so far (plus an
+/// inconclusive note naming the stall) to `out` and end the process.  Never a violation by itself.
+pub fn start_stall_watchdog(property: &str, out: PathBuf, limit_s: u64) {
+    let property = property.to_string();
+    let rss_limit_mb: u64 = std::env::var("VERIF_RSS_LIMIT_MB").ok().and_then(|s| s.parse().ok()).unwrap_or(3072);
+    std::thread::spawn(move || {
+        let mut last = PROGRESS.load(std::sync::atomic::Ordering::Relaxed);
+        let mut since = std::time::Instant::now();
+        loop {
+            std::thread::sleep(std::time::Duration::from_millis(1000));
+            // anonymous memory of this worker (mapped database files are not counted): a seeded change
+            // that loops while allocating has taken a worker to 27 GiB and the machine into the OOM killer
+            let anon_mb = std::fs::read_to_string("/proc/self/status")
+                .ok()
+                .and_then(|t| t.lines().find(|l| l.starts_with("RssAnon:")).and_then(|l| l.split_whitespace().nth(1).and_then(|x| x.parse::<u64>().ok())))
+                .unwrap_or(0)
+                / 1024;
+            if anon_mb > rss_limit_mb {
+                let mut sh = PARTIAL.lock().map(|g| g.clone()).unwrap_or(None).unwrap_or_else(|| Shard::new(&property));
+                sh.inconclusive(format!("worker stopped: its anonymous memory reached {} MiB (budget {} MiB) inside one step; the violations recorded before that are reported", anon_mb, rss_limit_mb));
+                sh.counters.insert("workers_stopped_by_memory_budget".into(), 1);
+                sh.write(&out);
+                eprintln!("memory budget: {} MiB anonymous memory, partial results written", anon_mb);
+                std::process::exit(0);
+            }
+            let now = PROGRESS.load(std::sync::atomic::Ordering::Relaxed);
+            if now != last {
+                last = now;
+                since = std::time::Instant::now();
+                continue;
+            }
+            if since.elapsed().as_secs() >= limit_s {
+                let mut sh = PARTIAL.lock().map(|g| g.clone()).unwrap_or(None).unwrap_or_else(|| Shard::new(&property));
+                sh.inconclusive(format!("worker stalled: one step (a call into the database or its verification) did not finish within {} s; the violations recorded before the stall are reported, the rest of this worker's cases were not run", limit_s));
+                sh.counters.insert("workers_stalled".into(), 1);
+                sh.write(&out);
+                eprintln!("stall watchdog: no progress for {} s, partial results written", limit_s);
+                std::process::exit(0);
+            }
+        }
+    });
+}
+
 impl Shard {
     pub fn new(property: &str) -> Shard {
         Shard {
@@ -88,6 +142,9 @@ impl Shard {
             detail: detail.chars().take(1200).collect(),
             replay: path.to_string_lossy().to_string(),
         });
+        if let Ok(mut g) = PARTIAL.lock() {
+            *g = Some(self.clone());
+        }
     }
     pub fn write(&self, path: &Path) {
         let tmp = path.with_extension("tmp");
